@@ -30,7 +30,9 @@ def run_case(case):
             f.write(src)
         res["counts"]["reader:file"] = 1
         try:
-            rd = real.make_reader(None, path=path, ignore_comments=(mode == "drop"), process_directives=(mode == "directives"), free=True)
+            # by path, or from an already open file object (the reader then does not own the file)
+            src_arg = path if case["seed"] % 8 == 1 else open(path, "r")
+            rd = real.make_reader(None, path=src_arg, ignore_comments=(mode == "drop"), process_directives=(mode == "directives"), free=True)
             o = real.Outcome("tree", tree=real.get_parser(std)(rd), reader=rd)
         except Exception:  # noqa: BLE001
             o = real.Outcome("other")
